@@ -6,6 +6,7 @@ import (
 
 	"go.nanomsg.org/mangos/v3"
 
+	"verifharness/hx"
 	"verifharness/mon"
 )
 
@@ -35,9 +36,17 @@ func runBlocked(c *mon.Case, sp spec) {
 		return
 	}
 	leave := sp.Peer == "vt-leave"
-	suspects := 0
+	// Two good measurements for short deadlines: the second call starts >= D after
+	// the option was set, so a timer armed once (at SetOption / creation) instead
+	// of per call shows up as early.  A suspected overshoot is re-measured: a
+	// deterministic slip repeats, scheduling noise does not.
+	need := 1
+	if !leave && D <= 100*time.Millisecond {
+		need = 2
+	}
+	good, suspects := 0, 0
 	var lastEl time.Duration
-	for attempt := 0; attempt < 3; attempt++ {
+	for attempt := 0; attempt < 6 && good < need; attempt++ {
 		if !w.arm() {
 			return
 		}
@@ -59,21 +68,26 @@ func runBlocked(c *mon.Case, sp spec) {
 		case err == w.wantTimeout():
 			if el < D {
 				w.outcome = "early"
-				c.Violate("early-timeout/"+w.id(), "%s (peer %s, state %s, q=%d): %v returned %v after the call was invoked, deadline %v — %v early", w.id(), sp.Peer, sp.State, sp.Q, err, el, D, D-el)
+				c.Violate("early-timeout/"+w.id(), "%s (peer %s, state %s, q=%d, call #%d after the option was set): %v returned %v after the call was invoked, deadline %v — %v early", w.id(), sp.Peer, sp.State, sp.Q, attempt+1, err, el, D, D-el)
 				return
 			}
 			c.Count("timeouts_not_early", 1)
 			c.Nontrivial()
 			w.outcome = "timeout"
-			if !leave && hangJudged(D) && mon.UpperBoundExceeded(el, D) {
-				suspects++
-				c.Count("upper_bound_suspects", 1)
-				continue // a deterministic slip repeats; scheduling noise does not
-			}
-			if hangJudged(D) && !leave {
+			if !leave && hangJudged(D) {
+				if mon.UpperBoundExceeded(el, D) {
+					suspects++
+					c.Count("upper_bound_suspects", 1)
+					if suspects >= 3 {
+						w.outcome = "hang"
+						c.Violate("hang/"+w.id(), "%s: deadline %v, three calls returned the timeout far beyond it (last after %v; canary worst oversleep %v)", w.id(), D, lastEl, mon.CanaryWorst())
+						return
+					}
+					continue
+				}
 				c.Count("upper_bounds_checked", 1)
 			}
-			return
+			good++
 		case isTimeoutErr(err):
 			w.outcome = "wrong-timeout"
 			c.Violate("wrong-timeout-error/"+w.id(), "%s returned %v, the timeout error of the other direction", w.id(), err)
@@ -93,9 +107,8 @@ func runBlocked(c *mon.Case, sp spec) {
 			return
 		}
 	}
-	if suspects >= 3 {
-		w.outcome = "hang"
-		c.Violate("hang/"+w.id(), "%s: deadline %v, three consecutive calls returned the timeout far beyond it (last after %v; canary worst oversleep %v)", w.id(), D, lastEl, mon.CanaryWorst())
+	if good < need {
+		c.Inconclusive("%s: deadline %v: %d of %d measurements usable (%d suspected overshoots, last %v, canary worst %v)", w.id(), D, good, need, suspects, lastEl, mon.CanaryWorst())
 	}
 }
 
@@ -422,4 +435,132 @@ func runFNPLeave(c *mon.Case, sp spec) {
 	}
 	w.outcome = "wrong:" + errName(err)
 	c.Violate("fnp/wrong-result-after-last-peer-left/"+w.id()+"/"+errName(err), "%s: last of %d peers left during the wait, call returned %v, want ErrNoPeers", w.id(), len(w.vps), err)
+}
+
+// runMulti: several callers blocked at the same time — N goroutines on one
+// socket (same deadline; only where the pattern allows concurrent calls on one
+// object) or the socket and N-1 contexts each with its OWN deadline.  Every
+// call must return the corresponding timeout error, none before its own D.
+// Library yield points are on, so the interleaving of timers, wake-ups and
+// cancellations varies with the case seed.
+func runMulti(c *mon.Case, sp spec) {
+	w := newWorld(c, spec{Kind: sp.Kind, Proto: sp.Proto, Obj: "sock", Op: sp.Op, Peer: sp.Peer, NPipes: sp.NPipes, Q: sp.Q, State: sp.State, K: sp.K, DUs: sp.DUs})
+	if w == nil {
+		return
+	}
+	w.sp = sp
+	n := sp.K
+	dchoices := []time.Duration{15 * time.Millisecond, 40 * time.Millisecond, 90 * time.Millisecond, 150 * time.Millisecond, 25 * time.Millisecond, 60 * time.Millisecond}
+	eps := []endpoint{w.sock}
+	ds := []time.Duration{sp.D()}
+	if sp.Obj == "ctx" {
+		for i := 1; i < n; i++ {
+			cx, err := w.sock.OpenContext()
+			if err != nil {
+				c.Inconclusive("%s: OpenContext: %v", sp.Proto, err)
+				return
+			}
+			cx.SetOption(mangos.OptionRetryTime, time.Hour)
+			cx.SetOption(mangos.OptionSurveyTime, time.Hour)
+			if sp.Proto == "sub" {
+				cx.SetOption(mangos.OptionSubscribe, "")
+			}
+			eps = append(eps, cx)
+			ds = append(ds, dchoices[c.Rand.Intn(len(dchoices))])
+		}
+	} else {
+		for i := 1; i < n; i++ {
+			eps = append(eps, w.sock)
+			ds = append(ds, sp.D())
+		}
+	}
+	// blocked state
+	if sp.Op == "send" {
+		if !w.prepareSend() { // queue family: counted fill; req: every vt pipe busy with a filler context's request
+			return
+		}
+	} else if !w.prepareRecv() {
+		return
+	}
+	opt := optName[w.dlOpt()]
+	for i, ep := range eps {
+		if sp.Obj != "ctx" && i > 0 {
+			break
+		}
+		if err := ep.SetOption(opt, ds[i]); err != nil {
+			if err == mangos.ErrBadOption {
+				c.Violate("option-lost/"+sp.Proto+"/"+map[bool]string{true: "sock", false: "ctx"}[i == 0]+"/"+opt, "%s endpoint %d: SetOption(%s,%v) = ErrBadOption although the support table lists it", sp.Proto, i, opt, ds[i])
+			} else {
+				c.Inconclusive("%s endpoint %d: SetOption(%s,%v) = %v", sp.Proto, i, opt, ds[i], err)
+			}
+			return
+		}
+	}
+	// REQ / SURVEYOR receivers need a request outstanding on every endpoint (vt peer: transmitted, never answered)
+	if sp.Op == "recv" && (sp.Proto == "req" || sp.Proto == "surveyor") {
+		for i, ep := range eps {
+			ep := ep
+			if !w.setup(fmt.Sprintf("request-%d", i), func() error { return ep.Send(payload) }) {
+				return
+			}
+		}
+	}
+	hx.SetYields(c.Rand.Int63(), &hx.YieldCfg{ProbGosched: 0.2, ProbSleep: 0.1, MaxSleep: 300 * time.Microsecond})
+	defer hx.SetYields(0, nil)
+	var maxD time.Duration
+	tcs := make([]*tcall, len(eps))
+	order := c.Rand.Perm(len(eps))
+	for _, i := range order {
+		ep := eps[i]
+		if ds[i] > maxD {
+			maxD = ds[i]
+		}
+		if sp.Op == "send" {
+			tcs[i] = timed("Send", func() error { return w.send(ep) })
+		} else {
+			tcs[i] = timed("Recv", func() error { return w.recv(ep) })
+		}
+	}
+	allDone := func() bool {
+		for _, tc := range tcs {
+			if !tc.call.Done() {
+				return false
+			}
+		}
+		return true
+	}
+	if !c.AwaitOrViolate("deadline-ignored/multi/"+w.id(), fmt.Sprintf("%d concurrent %s calls with deadlines %v", len(eps), w.id(), ds), allDone, mon.AwaitOpts{MaxTimer: maxD}) {
+		w.outcome = "no-return"
+		return
+	}
+	ok := 0
+	for i, tc := range tcs {
+		err, el := tc.err(), tc.elapsed()
+		c.Logf("endpoint %d: D=%v -> %s after %v", i, ds[i], errName(err), el)
+		c.Count("timed_calls", 1)
+		switch {
+		case err == w.wantTimeout() && el < ds[i]:
+			w.outcome = "early"
+			c.Violate("early-timeout/multi/"+w.id(), "%s, %d concurrent callers (deadlines %v): caller %d got %v after %v, its deadline is %v — %v early", w.id(), len(eps), ds, i, err, el, ds[i], ds[i]-el)
+			return
+		case err == w.wantTimeout():
+			ok++
+			c.Count("timeouts_not_early", 1)
+		case isTimeoutErr(err):
+			c.Violate("wrong-timeout-error/"+w.id(), "%s returned %v, the timeout error of the other direction", w.id(), err)
+			return
+		case err == nil:
+			c.Inconclusive("%s caller %d completed instead of blocking", w.id(), i)
+			return
+		default:
+			w.outcome = "wrong-error:" + errName(err)
+			c.Violate("blocked-call-wrong-error/multi/"+w.id()+"/"+errName(err), "%s, %d concurrent callers (deadlines %v): caller %d returned %v after %v, want %v", w.id(), len(eps), ds, i, err, el, w.wantTimeout())
+			return
+		}
+	}
+	if ok == len(tcs) {
+		w.outcome = "timeouts"
+		c.Count("concurrent_blocked_callers", ok)
+		c.Nontrivial()
+	}
 }
